@@ -24,6 +24,7 @@ func init() {
 
 func runC13(p *eng.Prog, r *eng.Report, tier string) {
 	c := &cx{p, r, tier}
+	r18ConditionDefaultedWhereItIsWritten(c, "C13.42")
 	r17RawTokenReaderStateless(c, "C13.41")
 	r17StanzaTypesAreNotMarshalers(c, "C13.40")
 	c.r.Floor("C13.39", "functions scanned for package-level state", r17NoHiddenGlobalState(c, "C13.39"), 500)
